@@ -1216,3 +1216,7 @@ pub(crate) mod tests {
         );
     }
 }
+
+#[cfg(kani)]
+#[path = "/verif/kani/parquet/parquet_thrift.rs"]
+mod verif_kani;
